@@ -61,8 +61,13 @@ def check_splice(ctx: Ctx, fi: FuncInfo):
         raise AnchorError(OPT, "expected exactly one slice assignment into the gate list")
     sp = splices[0]
     sl = sp.targets[0].slice
-    ok = sl.lower is not None and sl.upper is not None and norm(sl.lower) == f"{sec}.index[0]" and norm(sl.upper) == f"{sec}.index[1]" and sl.step is None
-    ctx.check(ok, "MP-reverse-splice", fi, "splice replaces exactly the section's index range", norm(sp.targets[0]), f"`{norm(sp.targets[0])}` is not [{sec}.index[0]:{sec}.index[1]]", sp)
+    lo_v = q.value_at(loop.body, q.enclosing_stmt(fi, sp), sl.lower) if sl.lower is not None else None
+    up_v = q.value_at(loop.body, q.enclosing_stmt(fi, sp), sl.upper) if sl.upper is not None else None
+    if sl.lower is not None and sl.upper is not None and (lo_v is None or up_v is None):
+        ctx.undecided(fi.short, f"the bounds of `{norm(sp.targets[0])}` have no single reaching definition")
+    else:
+        ok = lo_v is not None and up_v is not None and norm(lo_v) == f"{sec}.index[0]" and norm(up_v) == f"{sec}.index[1]" and sl.step is None
+        ctx.check(ok, "MP-reverse-splice", fi, "splice replaces exactly the section's index range", norm(sp.targets[0]), f"`{norm(sp.targets[0])}` (= [{norm(lo_v) if lo_v is not None else ''}:{norm(up_v) if up_v is not None else ''}]) is not [{sec}.index[0]:{sec}.index[1]]", sp)
     new = norm(sp.value)
     facts = [(norm(e), pol) for e, pol in guard_facts(fi, sp)]
     base = new[: -len(".gates")] if new.endswith(".gates") else new
